@@ -39,7 +39,7 @@ CLAIMED = {
             "only advances the counter; incomparable root keys give pairwise incomparable site keys. eager = jit = vmap-over-keys is JAX's contract, exercised by the correspondence "
             "(same key terms in all three modes, across interleavings with unseeded sampling, other seeded runs and counter jumps).",
             "Trusted: Coq kernel; hand model coq/Model/Seed.v of Seed.eval_jaxpr_seed (split per site, sub-key per cond, fold_in per scan iteration, fall-through for uninterpreted "
-            "higher-order primitives), of the lowering rule and of the JVP rule's inlining; keys are terms of the key algebra with split(k)[i] identified with fold_in(k,i) (true for "
+            "higher-order primitives), of the lowering rule and of the JVP rule (raises for traced primals); keys are terms of the key algebra with split(k)[i] identified with fold_in(k,i) (true for "
             "partitionable threefry, observed by the harness); distinct terms = independent streams is the PRNG idealisation (JAX's contract), not proved; harness/worker_seed.py maps raw key "
             "data back to terms by BFS over real split/fold_in. No axioms.",
             "Coq proof over a mini-Jaxpr model + key-echo census correspondence (vm_compute)", "7/C06"),
@@ -47,15 +47,15 @@ CLAIMED = {
             "sample-site instances of one seeded run are pairwise incomparable terms (none equal to or derived from another) strictly derived from the root (induction over the Jaxpr). "
             "Statistical independence / correct marginal law additionally need the PRNG idealisation and TFP's samplers (not proved); vectorized lanes get one key + extended sample_shape (C08).",
             "Trusted: Coq kernel; hand model coq/Model/Seed.v of Seed.eval_jaxpr_seed (split per site, sub-key per cond, fold_in per scan iteration, fall-through for uninterpreted "
-            "higher-order primitives), of the lowering rule and of the JVP rule's inlining; keys are terms of the key algebra with split(k)[i] identified with fold_in(k,i) (true for "
+            "higher-order primitives), of the lowering rule and of the JVP rule (raises for traced primals); keys are terms of the key algebra with split(k)[i] identified with fold_in(k,i) (true for "
             "partitionable threefry, observed by the harness); distinct terms = independent streams is the PRNG idealisation (JAX's contract), not proved; harness/worker_seed.py maps raw key "
             "data back to terms by BFS over real split/fold_in. No axioms.",
             "Coq proof by induction over the mini-Jaxpr + key-echo census correspondence (vm_compute)", "7/C07"),
     "C14": ("Theorems: compiling any traced program containing a sample primitive at any depth raises (C14_lowering_raises, by the model of JAX's recursive lowering); seed either removes "
-            "every site or leaves sites only under constructs it does not interpret, and then compiling raises (C14_seed_removes_or_raises); the full property holds for programs without "
-            "differentiation (C14_partial) and is REFUTED with grad/jvp (C14_full_refuted = known finding K2: jit(grad f) bakes a key).",
+            "every site or leaves sites only under constructs it does not interpret, and then compiling raises (C14_seed_removes_or_raises); the full property - every program containing a site, also under grad / jvp / value_and_grad, raises when "
+            "staged - holds for the model (C14_full_holds; it was refuted before fix F25, the former known finding K2); seed over a differentiated block raises too (C14_seed_over_grad_raises).",
             "Trusted: Coq kernel; hand model coq/Model/Seed.v of Seed.eval_jaxpr_seed (split per site, sub-key per cond, fold_in per scan iteration, fall-through for uninterpreted "
-            "higher-order primitives), of the lowering rule and of the JVP rule's inlining; keys are terms of the key algebra with split(k)[i] identified with fold_in(k,i) (true for "
+            "higher-order primitives), of the lowering rule and of the JVP rule (raises for traced primals); keys are terms of the key algebra with split(k)[i] identified with fold_in(k,i) (true for "
             "partitionable threefry, observed by the harness); distinct terms = independent streams is the PRNG idealisation (JAX's contract), not proved; harness/worker_seed.py maps raw key "
             "data back to terms by BFS over real split/fold_in. No axioms.",
             "Coq proof over a mini-Jaxpr model + outcome-class correspondence (vm_compute)", "7/C14"),
